@@ -508,7 +508,7 @@ package leader
 //@   on store kvElection.revision set e.revSet = true
 //@   ghost revStoredHere Bool = false
 //@   on store kvElection.revision set revStoredHere = true
-//@   on store kvElection.isLeader as s when s.value assert C07+C05+C02.claim_published_last: tokStored && revStoredHere
+//@   on store kvElection.isLeader as s when s.value assert C07+C05+C02+C10.claim_published_last: tokStored && revStoredHere
 //@   on call onPromote as c assert C05.promote_gets_published_token: c.arg1 == token
 //@   on load kvElection.ctx assert C19+C09.election_ctx_read_under_lock: held(e.mu) >= 1
 //@   on call onPromote as c assert C19.derived_from_election_ctx: origin(c.arg0, "ctx:derived") && origin(ctxof(c.arg0), "ctx:derived") && origin(ctxof(ctxof(c.arg0)), "field:kvElection.ctx")
@@ -527,7 +527,7 @@ package leader
 //@   ensures C08.promote_once: scalls(onPromote) == ((claimed && promoteSet) ? 1 : 0)
 //@   ensures C08.promotion_goroutine_calls_back: scalls(onPromote) == ((claimed && promoteSet) ? 1 : 0)
 //@   ensures C09.no_promote_after_stop: stateL == "STOPPED" || ctxNilL ==> !claimed && scalls(heartbeatLoop) == 0 && scalls(validationLoop) == 0 && scalls(onPromote) == 0
-//@   ensures C02.claims_when_running: stateL != "STOPPED" && !ctxNilL && !wasLeaderAtLock ==> claimed && scalls(heartbeatLoop) == 1 && scalls(validationLoop) == 1
+//@   ensures C02+C06.claims_when_running: stateL != "STOPPED" && !ctxNilL && !wasLeaderAtLock ==> claimed && scalls(heartbeatLoop) == 1 && scalls(validationLoop) == 1
 //@   ensures C08.no_second_term_on_top_of_a_term: wasLeaderAtLock ==> !claimed && scalls(heartbeatLoop) == 0 && scalls(validationLoop) == 0 && scalls(onPromote) == 0
 
 // becomeFollower() and settleAsFollower() are thin unexported wrappers: always inlined into
@@ -687,6 +687,7 @@ package leader
 //@   ghost entErr Int = 0
 //@   ghost got Bool = false
 //@   ghost cAtEntry Bool = cancelled(ctx)
+//@   on call KeyValue.Get assert C09+C04.cancelled_context_issues_no_read: !cAtEntry
 //@   on load kvElection.token as l set tok = l.value
 //@   on load kvElection.token set ntok = ntok + 1
 //@   on recv local as r set ent = r.value.entry
